@@ -76,7 +76,21 @@ def discover():
         for ln in lines:
             m = re.match(r"\s*//@\s*(C\d+)\s+(quick|thorough|witness)\s+(\d+)\s+(.*)$", ln)
             if m:
-                meta = m.groups()
+                meta = list(m.groups())
+                mem = 4
+                mm = re.search(r" \| mem=(\d+)", meta[3])
+                if mm:
+                    mem = int(mm.group(1))
+                    meta[3] = meta[3].replace(mm.group(0), "")
+                uw = []
+                if " | unwindset=" in meta[3]:
+                    meta[3], spec = meta[3].split(" | unwindset=", 1)
+                    for part in spec.strip().split(";"):
+                        rx, rest = part.rsplit("#", 1)
+                        no, bound = rest.split(":")
+                        uw.append((rx.strip(), None if no == "*" else int(no), int(bound)))
+                meta.append(uw)
+                meta.append(mem)
                 continue
             m = re.match(r"\s*//!\s*@functions\s+(C\d+)\s*:\s*(.*)$", ln)
             if m:
@@ -86,9 +100,9 @@ def discover():
                 continue
             m = re.match(r"\s*harness!\(\s*(\w+)\s*,\s*(\d+)\s*,\s*(\w+)\s*,", ln)
             if not m:
-                m2 = re.match(r"\s*log_harness!\(\s*(\d+)\s*,\s*(\w+)\s*,", ln)
+                m2 = re.match(r"\s*(log|sampler)_harness!\(\s*(\d+)\s*,\s*(\w+)\s*,", ln)
                 if m2:
-                    m = re.match(r"(\w+) (\d+) (\w+)", f"log {m2.group(1)} {m2.group(2)}")
+                    m = re.match(r"(\w+) (\d+) (\w+)", f"log {m2.group(2)} {m2.group(3)}")
             if m:
                 if meta is None:
                     raise SystemExit(f"{fn}: harness {m.group(3)} without //@ line")
@@ -102,6 +116,8 @@ def discover():
                         unwind=int(m.group(2)),
                         name=m.group(3),
                         module=mod,
+                        unwindset=meta[4],
+                        mem_gb=meta[5],
                     )
                 )
                 meta = None
@@ -192,7 +208,7 @@ def run_cmd(cmd, cwd, timeout, logpath, limit=True):
     return rc, timed_out, time.time() - t0
 
 
-def kani_cmd(h, target_dir, playback=False):
+def kani_cmd(h, target_dir, playback=False, cbmc_args=None):
     cmd = [
         "cargo",
         "kani",
@@ -210,7 +226,31 @@ def kani_cmd(h, target_dir, playback=False):
         cmd += ["--features", h["feature"]]
     if playback:
         cmd += ["-Z", "concrete-playback", "--concrete-playback", "print"]
+    if cbmc_args:
+        cmd += ["--cbmc-args"] + list(cbmc_args)
     return cmd
+
+
+def resolve_unwindset(h, tdir):
+    """Per-loop unwinding bounds (CBMC --unwindset) for loops named by (function regex, loop
+    number): the loop identifiers are read from the fully instrumented goto binary of this
+    very harness (`cbmc --show-loops`), so they follow the current source. Bounds are
+    checked by unwinding assertions like the global bound."""
+    logpath = os.path.join(WORK, "logs", h["name"] + ".loops.log")
+    run_cmd(kani_cmd(h, tdir, cbmc_args=["--show-loops"]), KANI, 900, logpath, limit=False)
+    txt = open(logpath, errors="replace").read()
+    m = re.search(r"Reading GOTO program from file (\S+)", txt)
+    if not m:
+        return None, "goto binary not found for --show-loops"
+    p = subprocess.run(["cbmc", "--show-loops", m.group(1)], capture_output=True, text=True, env=ENV)
+    loops = re.findall(r"Loop (\S+):\n\s+file (\S+) line (\d+) column \d+ function (.*)", p.stdout)
+    out = []
+    for rx, no, bound in h["unwindset"]:
+        hits = [lid for (lid, f, ln, fn) in loops if re.search(rx, fn) and (no is None or lid.endswith("." + str(no)))]
+        if not hits:
+            return None, f"unwindset target not found: {rx}#{no}"
+        out += [f"{lid}:{bound}" for lid in hits]
+    return ",".join(out), None
 
 
 RE_CHECK = re.compile(r"Check (\d+): (.*)")
@@ -361,10 +401,37 @@ def classify(h, rc, timed_out, res):
     return "inconclusive", f"no verdict (exit {rc}; see log)"
 
 
+def mem_available_gb():
+    for ln in open("/proc/meminfo"):
+        if ln.startswith("MemAvailable:"):
+            return int(ln.split()[1]) / (1 << 20)
+    return 0.0
+
+
+def wait_for_memory(need_gb, max_wait=7200):
+    """Admission control: the machine has no swap; do not start a solver when fewer than
+    `need_gb` + 6 GB are available (other instances are still growing)."""
+    t0 = time.time()
+    while mem_available_gb() < need_gb + 6 and time.time() - t0 < max_wait:
+        time.sleep(5 + (os.getpid() % 7))
+
+
 def run_harness(h, slot):
+    wait_for_memory(h.get("mem_gb", 4))
     tdir = os.path.join(WORK, f"t{slot}")
     logpath = os.path.join(WORK, "logs", h["name"] + ".log")
-    rc, to, wall = run_cmd(kani_cmd(h, tdir), KANI, h["timeout"], logpath)
+    extra = None
+    if h.get("unwindset"):
+        spec, err = resolve_unwindset(h, tdir)
+        if err:
+            res = parse_log(logpath) if os.path.exists(logpath) else {}
+            res = dict(status=None, checks=0, failed=0, failures=[], covers_total=0, covers_sat=0, symex_s=None,
+                       solver_s=0.0, vars=0, clauses=0, vccs=None, verif_s=None, undetermined=0, unreachable=0)
+            res.update(verdict="inconclusive", reason=err, wall_s=0.0, log=logpath)
+            return res
+        extra = ["--unwindset", spec]
+        h["_cbmc_args"] = extra
+    rc, to, wall = run_cmd(kani_cmd(h, tdir, cbmc_args=extra), KANI, h["timeout"], logpath)
     res = parse_log(logpath)
     verdict, reason = classify(h, rc, to, res)
     res.update(verdict=verdict, reason=reason, wall_s=round(wall, 1), log=logpath)
@@ -391,7 +458,8 @@ def replay(h, slot):
     """Re-run the failing harness with concrete playback, then natively."""
     tdir = os.path.join(WORK, f"t{slot}")
     logpath = os.path.join(WORK, "logs", h["name"] + ".playback.log")
-    rc, to, _ = run_cmd(kani_cmd(h, tdir, playback=True), KANI, h["timeout"] * 2, logpath, limit="big")
+    wait_for_memory(2 * h.get("mem_gb", 4) + 4)
+    rc, to, _ = run_cmd(kani_cmd(h, tdir, playback=True, cbmc_args=h.get("_cbmc_args")), KANI, h["timeout"] * 2, logpath, limit="big")
     res = parse_log(logpath)
     tests = [
         t
@@ -401,7 +469,31 @@ def replay(h, slot):
     out = dict(harness=h["name"], module=h["module"], description=h["desc"], tests=[])
     rpath = os.path.join(WORK, "replays", h["name"] + ".json")
     if not tests:
-        out["error"] = "no concrete values produced"
+        # Kani could not print concrete values (typically: trace generation ran out of
+        # memory on a large instance). The verdict stands; look for a witness natively.
+        out["error"] = "no concrete values produced by Kani; native search fallback"
+        exe = build_native("release")
+        spath = os.path.join(WORK, "replays", h["name"] + ".search.json")
+        if exe is not None:
+            for seed in range(1, 4):
+                try:
+                    p = subprocess.run([exe, "--search", h["name"], str(seed), "60", spath], capture_output=True, text=True, timeout=200, env=ENV)
+                except subprocess.TimeoutExpired:
+                    continue
+                out.setdefault("search", []).append(dict(seed=seed, exit=p.returncode, stderr_tail=(p.stderr or "")[-300:]))
+                if p.returncode == 101:
+                    # confirm through the ordinary replay path, both profiles
+                    ok = False
+                    for profile in ("debug", "release"):
+                        e2 = build_native(profile)
+                        if e2 is None:
+                            continue
+                        q = subprocess.run([e2, h["name"], spath], capture_output=True, text=True, timeout=300, env=ENV)
+                        out.setdefault("native", {})[profile] = dict(exit=q.returncode, stderr_tail=(q.stderr or "")[-300:])
+                        ok = ok or q.returncode == 101 or q.returncode < 0
+                    json.dump(out, open(rpath, "w"), indent=1)
+                    if ok:
+                        return spath, True, out
         json.dump(out, open(rpath, "w"), indent=1)
         return rpath, None, out
     exes = {p: build_native(p) for p in ("debug", "release")}
